@@ -679,6 +679,7 @@ func timestamps() []struct {
 		{"year-1", time.Date(1, 1, 1, 0, 0, 1, 0, time.UTC)},
 		{"monotonic", time.Now()},
 		{"year-9999", time.Date(9999, 12, 31, 23, 59, 59, 999999999, time.UTC)},
+		{"zero", time.Time{}},
 	}
 	if loc != nil {
 		l = append(l, struct {
@@ -717,7 +718,17 @@ func runValue(vc valCase, viol func(clause, facts, detail string)) {
 			viol("value-lost", "", fmt.Sprintf("Read returned %d of %d events", len(evs), len(w.log)))
 		} else {
 			for i, e := range evs {
-				if d := w.same(e, w.log[i], true); d != "" {
+				// every facet is judged on its own: an offset that differs (the durable-streams
+				// store's per-event offsets, a recorded finding) must not hide a type, a
+				// document or a timestamp that came back changed
+				ds := []string{w.same(e, w.log[i], true)}
+				if strings.HasPrefix(ds[0], "offset ") {
+					ds = append(ds, w.same(e, w.log[i], false))
+				}
+				for _, d := range ds {
+					if d == "" {
+						continue
+					}
 					what := "the value itself"
 					if w.log[i].typ == "good" {
 						what = "a neighbouring event"
